@@ -224,6 +224,14 @@ def query_case(ctx, text, docs, options=False):
                 jt = None
             if jt is not None:
                 def lazy(which):
+                    if which in ("one-way", "pipe"):
+                        # a stream that can only be read forwards (a pipe, a socket, a response body)
+                        st = one_way_stream(jt, which == "pipe")
+                        try:
+                            ctx.count("documents_read_from_streams_that_cannot_seek")
+                            return c.value.findall(st), jsonpath.pointer.resolve("", one_way_stream(jt, False))
+                        finally:
+                            st.close()
                     st = io.StringIO(jt) if which != "bytes" else io.BytesIO(jt.encode("utf-16"))
                     res = c.value.finditer(st) if which != "query" else c.value.query(st)
                     if which == "rewound":
@@ -232,8 +240,34 @@ def query_case(ctx, text, docs, options=False):
                         return [m.obj for m in res], [m.obj for m in other]
                     st.close()
                     return [m.obj for m in res]
-                for which in ("text", "bytes", "query", "rewound"):
+                for which in ("text", "bytes", "query", "rewound", "one-way", "pipe"):
                     classify(ctx, guarded(lambda: lazy(which)), (jsonpath.JSONPathError,), "evaluate(stream closed or rewound after the call)", dict(case, doc=d))
+
+
+def one_way_stream(text, real_pipe):
+    import io
+    import os
+
+    if real_pipe and len(text) < 30000:
+        rd, wr = os.pipe()
+        os.write(wr, text.encode("utf-8"))
+        os.close(wr)
+        return os.fdopen(rd, "r", encoding="utf-8")
+
+    class OneWay(io.TextIOBase):
+        def __init__(self, t):
+            self._inner = io.StringIO(t)
+
+        def readable(self):
+            return True
+
+        def seekable(self):
+            return False
+
+        def read(self, size=-1):
+            return self._inner.read(size)
+
+    return OneWay(text)
 
 
 class _EnvFacade:
